@@ -43,8 +43,10 @@ DelivCats(m) ==
              okStatus == o.status = m.status
              wantLen == IF m.status = 206 THEN 32 ELSE BodyLen
              wantOff == IF m.status = 206 THEN 16 ELSE 0
-             bodyOK == /\ o.bodyOK /\ o.bk = r /\ o.bv = m.ver /\ o.blen = wantLen /\ o.off = wantOff
-                       /\ ~o.trunc /\ o.clen = wantLen
+             \* (an empty body identifies nothing: its version is judged through the metadata only)
+             bodyOK == IF wantLen = 0 THEN o.blen = 0 /\ ~o.trunc
+                       ELSE /\ o.bodyOK /\ o.bk = r /\ o.bv = m.ver /\ o.blen = wantLen /\ o.off = wantOff
+                            /\ ~o.trunc /\ o.clen = wantLen
              metaOK == o.over = ToString(m.ver)
          IN (IF okStatus THEN {}
              ELSE IF o.status >= 500 \/ o.status = 0
@@ -103,7 +105,8 @@ UnexpectedOpenCats(i, rxv) ==
     \* vanished during revalidation) the request still carries the departed client's name and must be unconditional
     ELSE IF \E x \in 1..MaxX : /\ contacts'[x].open /\ contacts'[x].c = 0 /\ contacts'[x].oc = o.c
                                 /\ (contacts'[x] # contacts[x] \/ x = rxv)
-    THEN (IF o.inm = "absent" /\ o.ims = "absent" THEN {} ELSE {"C06"})
+    \* (an unparseable If-Modified-Since of the departed client is not a validator and travels with its request)
+    THEN (IF o.inm = "absent" /\ o.ims \in {"absent", "client"} THEN {} ELSE {"C06"})
     ELSE IF WasFollower(o.c) \/ creq'[o.c].st = "wait" THEN {"C05"}
     ELSE IF \E m \in last' : m.c = o.c /\ m.label = "HIT" THEN {"C04"}
     ELSE {"C05"}
@@ -179,7 +182,7 @@ TReply ==
            newlyStored == ObservedStored(ct.r) /\ ObservedVer(ct.r) = origin[ct.r].ver /\ Line.storedNew[ToString(ct.r)]
            st == IF ~is200 THEN FALSE
                  ELSE IF Storable(origin[ct.r].form) = "either" THEN newlyStored
-                 ELSE IF ~ct.leader /\ ct.kind = "get" THEN newlyStored /\ Storable(origin[ct.r].form) = "yes"
+                 ELSE IF (~ct.leader /\ ct.kind = "get") \/ StoreMayRefuse THEN newlyStored /\ Storable(origin[ct.r].form) = "yes"
                  ELSE Storable(origin[ct.r].form) = "yes"
            \* did the leader relay this answer (a delivery for it is on the line) or fetch its own?
            lr == ct.leader /\ ct.kind = "get" /\ DelivFor(ct.c) = {}
